@@ -102,6 +102,8 @@ class TraceFn:
             return {"hamiltonian": self.system.h(state), "mom": state.mom}
         if self.kind == "int_vec":
             return {"sign_pos": np.sign(state.pos).astype(np.int64)}
+        if self.kind == "odd_keys":  # keys that differ only in characters that are not valid in file names
+            return {"x[0]": state.pos[0], "x0": 2.0 * state.pos[0], "a/b": -state.pos[0], "ab": 3.0 * state.pos[0]}
         raise ValueError(self.kind)
 
     def apply_logged(self, rec):
@@ -113,6 +115,8 @@ class TraceFn:
             return {"sum_pos": float(np.sum(pos)), "dir_int": int(rec["dir"]), "first": pos[0]}
         if self.kind == "energy":
             return {"hamiltonian": rec["h"], "mom": mom}
+        if self.kind == "odd_keys":
+            return {"x[0]": pos[0], "x0": 2.0 * pos[0], "a/b": -pos[0], "ab": 3.0 * pos[0]}
         return {"sign_pos": np.sign(pos).astype(np.int64)}
 
 
@@ -311,7 +315,7 @@ def build(cfg: dict, logdir: str):
         kw["stager"] = mici.stagers.WindowedWarmUpStager()
     kw["n_process"] = cfg.get("n_process", 1)
     kw["trace_warm_up"] = cfg.get("trace_warm_up", False)
-    kw["display_progress"] = False
+    kw["display_progress"] = bool(cfg.get("display_progress", False))
     if cfg.get("force_memmap"):
         kw["force_memmap"] = True
     if cfg.get("memmap_dir"):
